@@ -25,25 +25,26 @@ import (
 	"os"
 	"os/exec"
 	"path/filepath"
-	"strings"
 	"strconv"
+	"strings"
 	"syscall"
 	"time"
 )
 
 type behaviour struct {
-	Exit         int    `json:"exit"`
-	Kill         bool   `json:"kill"`
-	Stdout       string `json:"stdout"`
-	Stderr       string `json:"stderr"`
-	PadStdout    int64  `json:"padStdout"` // append ,"pad":"aaa.." inside the JSON object
-	PadStderr    int64  `json:"padStderr"`
-	PadStdoutKey string `json:"padStdoutKey"`
-	PadStderrKey string `json:"padStderrKey"`
-	SleepMs      int    `json:"sleepMs"`
-	ChildSleep   int    `json:"childSleepMs"` // spawn a descendant holding the pipes
-	ChildPidFile string `json:"childPidFile"`
-	Marker       string `json:"marker"`
+	Exit          int    `json:"exit"`
+	Kill          bool   `json:"kill"`
+	Stdout        string `json:"stdout"`
+	Stderr        string `json:"stderr"`
+	PadStdout     int64  `json:"padStdout"` // append ,"pad":"aaa.." inside the JSON object
+	PadStderr     int64  `json:"padStderr"`
+	PadStdoutKey  string `json:"padStdoutKey"`
+	PadStderrKey  string `json:"padStderrKey"`
+	SleepMs       int    `json:"sleepMs"`
+	ChildSleep    int    `json:"childSleepMs"` // spawn a descendant holding the pipes
+	ChildPidFile  string `json:"childPidFile"`
+	ChildDetached bool   `json:"childDetached"` // the descendant leaves the plugin's session and process group (setsid), as a daemonising helper does
+	Marker        string `json:"marker"`
 }
 
 func pad(w io.Writer, s string, n int64, key string) {
@@ -132,6 +133,9 @@ func main() {
 	if b.ChildSleep > 0 {
 		c := exec.Command(exe, "__sleep", (time.Duration(b.ChildSleep) * time.Millisecond).String(), exe)
 		c.Stdout, c.Stderr = os.Stdout, os.Stderr
+		if b.ChildDetached {
+			c.SysProcAttr = &syscall.SysProcAttr{Setsid: true}
+		}
 		if err := c.Start(); err == nil && b.ChildPidFile != "" {
 			tmp := b.ChildPidFile + ".tmp"
 			if os.WriteFile(tmp, []byte(strconv.Itoa(c.Process.Pid)), 0644) == nil {
